@@ -31,7 +31,9 @@ func init() {
 			{Name: "check-not-called", File: "bfe_config/bfe_route_conf/host_rule_conf/host_table_load.go", Old: "	// check config\n	if err := HostTableConfCheck(*conf); err != nil {\n		return \"\", err\n	}\n", New: "", Expect: "check-before-use"},
 			{Name: "check-error-dropped", File: "bfe_route/server_data_conf.go", Old: "	if err := s.check(); err != nil {\n		return nil, fmt.Errorf(\"ServerDataConf.check Error %s\", err)\n	}", New: "	s.check()", Expect: "closure"},
 			{Name: "defaults-not-written-back", File: "bfe_config/bfe_cluster_conf/cluster_conf/cluster_conf_load.go", Old: "		conf[clusterName] = clusterConf\n", New: "", Expect: "copy-write-back"},
-			{Name: "gslb-weight-nil", File: "bfe_config/bfe_cluster_conf/cluster_conf/cluster_conf_load.go", Old: "	if conf.RetryMax == nil {", New: "	if conf.RetryMax == nil && conf.CrossRetry != nil {", Expect: "nil-deref"},
+			{Name: "hash-header-required-for-one-strategy-only", File: "bfe_config/bfe_cluster_conf/cluster_conf/cluster_conf_load.go", Old: "	if *conf.HashStrategy == ClientIdOnly || *conf.HashStrategy == ClientIdPreferred {", New: "	if *conf.HashStrategy == ClientIdOnly {", Expect: "nil-deref"},
+			{Name: "gslb-retrymax-default-removed", File: "bfe_config/bfe_cluster_conf/cluster_conf/cluster_conf_load.go", Old: "	if conf.RetryMax == nil {\n		defaultRetryMax := 2\n		conf.RetryMax = &defaultRetryMax\n	}\n", New: "", Expect: "nil-deref"},
+			{Name: "gslb-retrymax-default-conditional", File: "bfe_config/bfe_cluster_conf/cluster_conf/cluster_conf_load.go", Old: "	if conf.RetryMax == nil {", New: "	if conf.RetryMax == nil && conf.HashConf != nil {", Expect: "nil-deref"},
 		},
 	})
 }
@@ -231,12 +233,13 @@ func runC13(c *core.Ctx) {
 		}
 		// cluster lookups: unconditional apart from loop conditions and the sentinel
 		nl := 0
+		chkLoopConds := core.LoopConds(chk)
 		for _, ci := range core.Calls(chk, "bfe_route.ClusterTable.Lookup") {
 			nl++
 			var extra []string
 			for _, g := range core.GuardsAt(ci.(ssa.Instruction).Block()) {
 				s := g.Str
-				if strings.Contains(s, "next(range(") || strings.Contains(s, "rangeindex") || strings.Contains(s, "ADVANCED_MODE") {
+				if chkLoopConds[g.Cond] || strings.Contains(s, "ADVANCED_MODE") {
 					continue
 				}
 				extra = append(extra, s)
@@ -418,6 +421,8 @@ func runC13(c *core.Ctx) {
 	// facts from *Check functions
 	fieldFact := map[string]string{}
 	elemFact := map[string]string{}
+	nPartial := map[string]int{}
+	nHandled := 0
 	for _, fn := range all {
 		rel := core.FuncPkgRel(fn)
 		if !strings.HasPrefix(rel, "bfe_config/") || !strings.Contains(fn.Name(), "Check") {
@@ -453,8 +458,18 @@ func runC13(c *core.Ctx) {
 				}
 			}
 			if !handled {
+				// a nil test of an optional value in a Check function that neither rejects nor
+				// assigns in its nil branch is a partial default (e.g. "x == nil && other" guarding
+				// the assignment): the value may stay nil although the function looks like it
+				// normalises it. Users outside the loader packages rely on the normalisation.
+				if ov.kind == "field" {
+					nPartial[core.FuncKey(fn)+":"+ov.key]++
+					c.Check("nil-deref", fmt.Sprintf("%s:%s:nil-branch#%d", core.FuncKey(fn), ov.key, nPartial[core.FuncKey(fn)+":"+ov.key]), in.Pos(), false,
+						"the nil test of optional config value "+ov.key+" in "+core.FuncKey(fn)+" neither rejects the file nor assigns a default in its nil branch (the branch is conditional on something else): the value can stay nil after a successful check and is dereferenced by its users")
+				}
 				continue
 			}
+			nHandled++
 			switch ov.kind {
 			case "field":
 				// on every success path of the Check
@@ -479,6 +494,9 @@ func runC13(c *core.Ctx) {
 							onlyLoop = false
 						}
 					}
+				}
+				if len(core.SkipFilters(ifi.Block())) > 0 {
+					onlyLoop = false // an element filter (continue) in front of the test
 				}
 				var rng ssa.Instruction
 				if ex, isEx := b.X.(*ssa.Extract); isEx {
@@ -537,6 +555,9 @@ func runC13(c *core.Ctx) {
 						onlyLoop = false
 					}
 				}
+				if len(core.SkipFilters(ci.(ssa.Instruction).Block())) > 0 {
+					onlyLoop = false
+				}
 				depth := 0
 				for _, l := range loops {
 					if l.Body[ci.(ssa.Instruction).Block()] {
@@ -549,15 +570,16 @@ func runC13(c *core.Ctx) {
 			}
 		}
 	}
-	c.Note("nil facts from Check functions: %d fields, %d containers", len(fieldFact), len(elemFact))
+	c.Note("nil facts from Check functions: %d fields, %d containers (%d handled nil tests)", len(fieldFact), len(elemFact), nHandled)
+	if nHandled < 40 {
+		c.Check("nil-deref", "check-nil-tests", token.NoPos, false, fmt.Sprintf("only %d reject-or-default nil tests found in the *Check functions; 50 were reviewed (floor 40)", nHandled))
+	}
 	// dereference sites
 	ord := map[string]int{}
 	nSites := 0
 	for _, fn := range all {
 		rel := core.FuncPkgRel(fn)
-		if !inLoaderScope(rel) {
-			continue
-		}
+		inLoader := inLoaderScope(rel)
 		k := core.FuncKey(fn)
 		core.Instrs(fn, func(in ssa.Instruction) {
 			var p ssa.Value
@@ -575,6 +597,13 @@ func runC13(c *core.Ctx) {
 			ov, ok := classifyOpt(p)
 			if !ok {
 				return
+			}
+			if !inLoader {
+				// users outside the loader packages: only optional fields of the routing and
+				// cluster configuration (the property's subject), which the loaders normalise
+				if ov.kind != "field" || !(strings.HasPrefix(ov.key, "bfe_config/bfe_route_conf/") || strings.HasPrefix(ov.key, "bfe_config/bfe_cluster_conf/")) {
+					return
+				}
 			}
 			nSites++
 			c.Analysed(k)
@@ -603,6 +632,11 @@ func runC13(c *core.Ctx) {
 			if !local && fact == "" && ov.kind == "field" {
 				if callersEstablish(c, all, fn, p) {
 					fact = "callers"
+				}
+			}
+			if !local && fact == "" && ov.kind == "field" {
+				if why := correlatedFact(all, in, ov); why != "" {
+					fact = why
 				}
 			}
 			id := k + ":" + ov.key
@@ -739,4 +773,108 @@ func callersEstablish(c *core.Ctx, all []*ssa.Function, fn *ssa.Function, p ssa.
 		}
 	}
 	return sites > 0
+}
+
+// discriminatorTest recognises "*<optional field D> == K" (K constant) and returns D's key and K.
+func discriminatorTest(v ssa.Value) (string, string, bool) {
+	b, ok := v.(*ssa.BinOp)
+	if !ok || b.Op != token.EQL {
+		return "", "", false
+	}
+	k, ok := b.Y.(*ssa.Const)
+	if !ok || k.Value == nil {
+		return "", "", false
+	}
+	ld, ok := b.X.(*ssa.UnOp)
+	if !ok || ld.Op != token.MUL {
+		return "", "", false
+	}
+	d, ok := classifyOpt(ld.X)
+	if !ok || d.kind != "field" {
+		return "", "", false
+	}
+	return d.key, k.Value.ExactString(), true
+}
+
+// correlatedFact: the dereference `in` of optional field F is guarded by "*D == K" for a
+// sibling discriminator field D, and a *Check function rejects a nil F on every success path
+// that follows its own "*D == K" test (conditionally required value, e.g. HashHeader is
+// required exactly for the header-based hash strategies).
+func correlatedFact(all []*ssa.Function, in ssa.Instruction, f optValue) string {
+	type dk struct{ d, k string }
+	var have []dk
+	for _, g := range core.GuardsAt(in.Block()) {
+		if !g.Pol {
+			continue
+		}
+		if d, k, ok := discriminatorTest(g.Cond); ok {
+			have = append(have, dk{d, k})
+		}
+	}
+	if len(have) == 0 {
+		return ""
+	}
+	for _, fn := range all {
+		if !strings.HasPrefix(core.FuncPkgRel(fn), "bfe_config/") || !strings.Contains(fn.Name(), "Check") {
+			continue
+		}
+		// the rejecting nil test of F in fn
+		var nilTest ssa.Instruction
+		for _, x := range allInstrs(fn) {
+			ifi, ok := x.(*ssa.If)
+			if !ok {
+				continue
+			}
+			b, ok := ifi.Cond.(*ssa.BinOp)
+			if !ok || b.Op != token.EQL || !isNilConst(b.Y) {
+				continue
+			}
+			ov, ok := classifyOpt(b.X)
+			if !ok || ov.kind != "field" || ov.key != f.key {
+				continue
+			}
+			thenB := ifi.Block().Succs[0]
+			if r, isRet := thenB.Instrs[len(thenB.Instrs)-1].(*ssa.Return); isRet {
+				rv := core.RetVals(r)
+				if len(rv) > 0 && !isNilConst(rv[len(rv)-1]) {
+					nilTest = x
+				}
+			}
+		}
+		if nilTest == nil {
+			continue
+		}
+		for _, h := range have {
+			for _, x := range allInstrs(fn) {
+				ifi, ok := x.(*ssa.If)
+				if !ok {
+					continue
+				}
+				d, k, ok := discriminatorTest(ifi.Cond)
+				if !ok || d != h.d || k != h.k {
+					continue
+				}
+				tb := ifi.Block().Succs[0]
+				if len(tb.Instrs) == 0 {
+					continue
+				}
+				// from the true edge, no success return is reachable without executing the nil test
+				if tb.Instrs[0] == nilTest {
+					return "required when " + h.d + " == " + h.k + " (" + core.FuncKey(fn) + ")"
+				}
+				esc := core.ReachAvoiding(fn, tb.Instrs[0], func(y ssa.Instruction) bool { return y == nilTest }, func(y ssa.Instruction) bool {
+					r, isR := y.(*ssa.Return)
+					if !isR {
+						return false
+					}
+					rv := core.RetVals(r)
+					return len(rv) == 0 || isNilConst(rv[len(rv)-1])
+				})
+				if esc == nil {
+					return "required when " + h.d + " == " + h.k + " (" + core.FuncKey(fn) + ")"
+				}
+			}
+		}
+	}
+	return ""
 }
